@@ -187,7 +187,7 @@ theorem settle_gas_le (J : Journal W) (s : J.Snap) (r : FrameRes W) : (settle J 
 /-- **gas_bounded** (per call tree): `evm.Call/CallCode/DelegateCall/StaticCall/create` at any depth return at most
     the gas they were given — including the frames below them, the code deposit and the decimals() call.  By induction
     on the depth budget: each level uses the bound of the level below for `contract.Gas += returnGas`. -/
-theorem callBody_gas_le (sem : Sem W L) (J : Journal W) (sub : SubCall W) (hs : SubOk sub) : SubOk (callBody sem J sub) := by
+theorem callBody_gas_le (sem : Sem W L) (J : Journal W) (sg : Nat) (sub : SubCall W) (hs : SubOk sub) : SubOk (callBody sem J sg sub) := by
   intro req ro g
   unfold callBody
   split
@@ -201,7 +201,7 @@ theorem callAt_subOk (sem : Sem W L) (J : Journal W) : ∀ n, SubOk (callAt sem 
   intro n
   induction n with
   | zero => intro req ro g; simp [callAt]
-  | succ n ih => exact callBody_gas_le sem J _ ih
+  | succ n ih => exact callBody_gas_le sem J simulateGas _ ih
 
 theorem gas_bounded (sem : Sem W L) (J : Journal W) (n : Nat) (req : CallReq W) (ro : Bool) (g : Glob) :
     (callAt sem J n req ro g).gas ≤ req.fwd := callAt_subOk sem J n req ro g
@@ -389,7 +389,7 @@ theorem call_tree_terminates (sem : Sem W L) (J : Journal W) (n : Nat) (req : Ca
   cases n with
   | zero => simp [callAt]
   | succ n =>
-    show (callBody sem J (callAt sem J n) req ro g).status ≠ .outOfFuel
+    show (callBody sem J simulateGas (callAt sem J n) req ro g).status ≠ .outOfFuel
     unfold callBody
     split
     · simp
@@ -421,8 +421,8 @@ theorem frame_atomic (sem : Sem W L) (J : Journal W) {O : Type} (obs : W → O) 
   cases n with
   | zero => simp [callAt]
   | succ n =>
-    change (callBody sem J (callAt sem J n) req ro t).status ≠ .ok at h
-    show obs (callBody sem J (callAt sem J n) req ro t).world = obs req.world
+    change (callBody sem J simulateGas (callAt sem J n) req ro t).status ≠ .ok at h
+    show obs (callBody sem J simulateGas (callAt sem J n) req ro t).world = obs req.world
     unfold callBody at h ⊢
     split
     · simp
@@ -794,6 +794,399 @@ theorem runFresh_static (sem : Sem W L) (sub : SubCall W) (hsub : SubStatic sub)
   unfold runFresh
   exact runFrame_static sem sub hsub _ _ rfl
 
+/-- the tail of a call wrapper (deposit, select, settle) keeps "ledger total untouched, no ISSUE" when the decimals()
+    frame does -/
+theorem pipeline_static (sem : Sem W L) (J : Journal W) (req : CallReq W) (s : J.Snap) (sim : W → Glob → FrameRes W)
+    (hsim : ∀ w gl, ledger (sim w gl).glob = ledger gl ∧ (sim w gl).issued = false)
+    (g : Glob) (r0 : FrameRes W) (h0 : ledger r0.glob = ledger g ∧ r0.issued = false) :
+    ledger (settle J s (afterSelect sem J req.static sim (afterDeposit req r0))).glob = ledger g ∧
+    (settle J s (afterSelect sem J req.static sim (afterDeposit req r0))).issued = false := by
+  have hd := afterDeposit_keeps req r0
+  have hsel := afterSelect_ledger sem J req.static sim (afterDeposit req r0) (fun w gl => (hsim w gl).1)
+  have hiss := afterSelect_issued sem J req.static sim (afterDeposit req r0) (fun w gl => (hsim w gl).2)
+  have hk := settle_keeps J s (afterSelect sem J req.static sim (afterDeposit req r0))
+  constructor
+  · exact (congrArg ledger hk.1).trans (hsel.1.trans ((congrArg ledger hd.1).trans h0.1))
+  · exact hk.2.1.trans (hiss.trans (hd.2.1.trans h0.2))
+
+/-- one level of **read-only inheritance**: a wrapper entered with `ro = true` runs its frame (and the decimals() frame)
+    read-only, whatever the call kind (`req.static` or not, create or call) -/
+theorem callBody_static (sem : Sem W L) (J : Journal W) (sg : Nat) (sub : SubCall W) (hsub : SubStatic sub) :
+    SubStatic (callBody sem J sg sub) := by
+  intro req g
+  have h0 := runFresh_static sem sub hsub req.code req.fwd (req.enter req.world) g
+  have key := pipeline_static sem J req (J.snap req.world)
+      (fun w g => runFresh sem sub (req.simCode w) sg w true g)
+      (fun w gl => runFresh_static sem sub hsub (req.simCode w) sg w gl) g _ h0
+  unfold callBody
+  split
+  · exact ⟨rfl, rfl⟩
+  · exact key
+
+/-- **read-only is inherited** over the whole depth budget: a wrapper entered from a read-only frame runs its frame
+    read-only, and so does every frame below it; consequently the fee ledger's total is untouched (value calls,
+    SELFDESTRUCT and TRANSFERTOKEN are the only entries that record fees, all blocked) and no ISSUE executes -/
+theorem callAt_static (sem : Sem W L) (J : Journal W) : ∀ n, SubStatic (callAt sem J n) := by
+  intro n
+  induction n with
+  | zero => intro req g; exact ⟨rfl, rfl⟩
+  | succ n ih => exact callBody_static sem J simulateGas _ ih
+
+/-- **readonly_tree_never_issues** -/
+theorem readonly_tree_never_issues (sem : Sem W L) (J : Journal W) (n : Nat) (req : CallReq W) (g : Glob) :
+    (callAt sem J n req true g).issued = false := (callAt_static sem J n req g).2
+
+theorem readonly_tree_keeps_ledger (sem : Sem W L) (J : Journal W) (n : Nat) (req : CallReq W) (g : Glob) :
+    ledger (callAt sem J n req true g).glob = ledger g := (callAt_static sem J n req g).1
+
+/-! ## fees_le_consumed: the fee ledger never records more than the gas that was consumed -/
+
+/-- what a wrapper guarantees about the ledger: what it adds to `Σ fees + Σ refundFees`, plus the gas it hands back, is
+    at most the gas it was handed -/
+def SubFees (sub : SubCall W) : Prop :=
+  ∀ req ro g, ledger (sub req ro g).glob + (sub req ro g).gas ≤ ledger g + req.fwd
+
+theorem add_shift {a b t g1 X : Nat} (h : a + b ≤ X + t) (ht : t ≤ g1) : a + (g1 - t + b) ≤ X + g1 := by omega
+theorem add_shift2 {a b t g1 X : Nat} (h : a + b ≤ X + t) : a + (g1 + b) ≤ X + t + g1 := by omega
+
+theorem ledger_iss (c : Bool) (g : Glob) (t : Token) : ledger (if c then { g with iss := t } else g) = ledger g := by
+  split <;> rfl
+
+theorem ledger_add_fee (g : Glob) (fee : Nat) : ledger { g with fees := g.fees + fee } = ledger g + fee := by
+  simp only [ledger]; omega
+
+theorem stepPlain_fees (sem : Sem W L) (sub : SubCall W) (hsub : SubFees sub) (f : Frame W L) (r : Row) :
+    ledger (stepGlob (stepPlain sem sub f r)) + effGas (stepPlain sem sub f r) ≤ ledger f.glob + f.gas := by
+  unfold stepPlain
+  split
+  · rw [(failHere_proj _ _).1, (failHere_proj _ _).2.2.2]; omega
+  · rename_i c0 _
+    have hfc := plainFee_le_cost sem f r c0
+    simp only []
+    split
+    · rw [(failHere_proj _ _).1, (failHere_proj _ _).2.2.2]
+      have := (oogLedger_bound f.glob f.gas (plainCost r c0 (plainFee sem f r)) (plainFee sem f r)).1
+      omega
+    · split
+      · simp only [stepGlob, effGas, resGas, ledger]
+        simp
+        omega
+      · simp only [stepGlob, effGas, resGas, ledger]
+        simp
+        omega
+      · rw [(finishStep_proj _ _ _ _ _ _ _ _ _).1, (finishStep_proj _ _ _ _ _ _ _ _ _).2.2.2]
+        split <;> (simp only [ledger]; omega)
+      · split
+        · rw [(failHere_proj _ _).1, (failHere_proj _ _).2.2.2]; omega
+        · rw [(finishStep_proj _ _ _ _ _ _ _ _ _).1, (finishStep_proj _ _ _ _ _ _ _ _ _).2.2.2]
+          refine Nat.le_trans (add_shift (hsub _ _ _) ?_) ?_
+          · exact createTake_le _ _
+          · simp only [ledger]; omega
+
+theorem stepCall_fees (sem : Sem W L) (sub : SubCall W) (hsub : SubFees sub) (f : Frame W L) (r : Row) :
+    ledger (stepGlob (stepCall sem sub f r)) + effGas (stepCall sem sub f r) ≤ ledger f.glob + f.gas := by
+  unfold stepCall
+  split
+  · rw [(failHere_proj _ _).1, (failHere_proj _ _).2.2.2]; omega
+  · rename_i a _
+    have hcov := callBase_covers (sem.callHasValue r f.l) (callFee r (sem.callHasValue r f.l) a) a.extra
+    simp only []
+    split
+    · rw [(failHere_proj _ _).1, (failHere_proj _ _).2.2.2]; omega
+    · split
+      · rw [(failHere_proj _ _).1, (failHere_proj _ _).2.2.2]
+        have := (oogLedger_bound f.glob f.gas (callBase (sem.callHasValue r f.l) (callFee r (sem.callHasValue r f.l) a) a.extra +
+          callGasU64 f.gas (callBase (sem.callHasValue r f.l) (callFee r (sem.callHasValue r f.l) a) a.extra) a.requested)
+          (callFee r (sem.callHasValue r f.l) a)).1
+        omega
+      · split
+        · simp only [stepGlob, effGas, resGas, ledger]
+          simp
+          omega
+        · simp only [stepGlob, effGas, resGas, ledger]
+          simp
+          omega
+        · rw [(finishStep_proj _ _ _ _ _ _ _ _ _).1, (finishStep_proj _ _ _ _ _ _ _ _ _).2.2.2]
+          simp only [ledger]; omega
+        · rw [(finishStep_proj _ _ _ _ _ _ _ _ _).1, (finishStep_proj _ _ _ _ _ _ _ _ _).2.2.2, (moveToRefunds_ledger _ _ _ _).1]
+          refine Nat.le_trans (add_shift2 (hsub _ _ _)) ?_
+          simp only [ledger]
+          omega
+
+theorem step_fees (sem : Sem W L) (sub : SubCall W) (hsub : SubFees sub) (f : Frame W L) :
+    ledger (stepGlob (step sem sub f)) + effGas (step sem sub f) ≤ ledger f.glob + f.gas := by
+  unfold step
+  repeat' split
+  all_goals first
+    | exact stepCall_fees sem sub hsub f _
+    | exact stepPlain_fees sem sub hsub f _
+    | (rw [(failHere_proj _ _).1, (failHere_proj _ _).2.2.2]; omega)
+
+/-- per frame: fees recorded during the frame + the gas the frame is worth to its caller ≤ the gas it started with -/
+theorem runFrame_fees (sem : Sem W L) (sub : SubCall W) (hsub : SubFees sub) :
+    ∀ (n : Nat) (f : Frame W L), ledger (runFrame sem sub n f).glob + resGas (runFrame sem sub n f) ≤ ledger f.glob + f.gas := by
+  intro n
+  induction n with
+  | zero => intro f; simp [runFrame, resGas]
+  | succ n ih =>
+    intro f
+    have h := step_fees sem sub hsub f
+    unfold runFrame
+    split
+    · rename_i r hr; simpa [hr, stepGlob, effGas] using h
+    · rename_i f' hr
+      simp only [hr, stepGlob, effGas] at h
+      exact Nat.le_trans (ih f') h
+
+theorem pipeline_fees (sem : Sem W L) (J : Journal W) (req : CallReq W) (s : J.Snap) (sim : W → Glob → FrameRes W)
+    (hsim : ∀ w gl, ledger (sim w gl).glob = ledger gl) (r0 : FrameRes W) :
+    ledger (settle J s (afterSelect sem J req.static sim (afterDeposit req r0))).glob +
+      (settle J s (afterSelect sem J req.static sim (afterDeposit req r0))).gas ≤ ledger r0.glob + resGas r0 := by
+  have hd := afterDeposit_keeps req r0
+  have hsel := afterSelect_ledger sem J req.static sim (afterDeposit req r0) hsim
+  have hk := settle_keeps J s (afterSelect sem J req.static sim (afterDeposit req r0))
+  rw [hk.1, hk.2.2.2, hsel.1, hd.1]
+  have := hsel.2
+  have := hd.2.2.2
+  omega
+
+theorem callBody_fees (sem : Sem W L) (J : Journal W) (sg : Nat) (sub : SubCall W) (hsub : SubFees sub) (hst : SubStatic sub) :
+    SubFees (callBody sem J sg sub) := by
+  intro req ro g
+  have h0 := runFrame_fees sem sub hsub (fuelFor req.code req.fwd)
+    { code := req.code, pc := 0, gas := req.fwd, l := sem.l0, w := req.enter req.world, static := (ro || req.static), glob := g, work := 0, issued := false }
+  have key := pipeline_fees sem J req (J.snap req.world) (fun w g => runFresh sem sub (req.simCode w) sg w true g)
+    (fun w gl => (runFresh_static sem sub hst (req.simCode w) sg w gl).1)
+    (runFresh sem sub req.code req.fwd (req.enter req.world) (ro || req.static) g)
+  unfold callBody
+  split
+  · simp only []
+    split <;> omega
+  · exact Nat.le_trans key h0
+
+/-- **fees_le_consumed** (whole call tree): for `evm.Call/CallCode/DelegateCall/StaticCall/create` at any depth, what the
+    call adds to the fee ledger (`Σ evm.fees + Σ evm.refundFees` = `RefundAllFee()`) plus the gas it hands back is at most
+    the gas it was given — so `tx.Gas += RefundFee()` (success) and `tx.Gas += RefundAllFee()` (failure) in
+    app/state_transition.go can never lift the gas above what was bought, and `InitialGas - Gas` cannot wrap -/
+theorem callAt_fees (sem : Sem W L) (J : Journal W) : ∀ n, SubFees (callAt sem J n) := by
+  intro n
+  induction n with
+  | zero => intro req ro g; exact Nat.le_refl _
+  | succ n ih => exact callBody_fees sem J simulateGas _ ih (callAt_static sem J n)
+
+theorem fees_le_consumed (sem : Sem W L) (J : Journal W) (n : Nat) (req : CallReq W) (ro : Bool) (t : Token) :
+    (callAt sem J n req ro { iss := t }).gas + (callAt sem J n req ro { iss := t }).glob.refunds +
+      (callAt sem J n req ro { iss := t }).glob.fees ≤ req.fwd := by
+  have := callAt_fees sem J n req ro { iss := t }
+  simp only [ledger] at this
+  omega
+
+/-! ## metering without ISSUE: work + gas left ≤ gas given -/
+
+/-- what a wrapper guarantees when it is entered with an empty `Issued` channel and no ISSUE is executed in its call
+    tree: the gas of the steps executed plus the gas handed back is at most the gas it was handed, and the channel is
+    still empty -/
+def SubWork (sub : SubCall W) : Prop :=
+  ∀ req ro g, g.iss = none → (sub req ro g).issued = false →
+    (sub req ro g).work + (sub req ro g).gas ≤ req.fwd ∧ (sub req ro g).glob.iss = none
+
+theorem stepPlain_work (sem : Sem W L) (sub : SubCall W) (hsub : SubWork sub) (f : Frame W L) (r : Row)
+    (hn : f.glob.iss = none) :
+    stepIssued (stepPlain sem sub f r) = false →
+      stepWork (stepPlain sem sub f r) + stepGas (stepPlain sem sub f r) ≤ f.work + f.gas ∧
+      (stepGlob (stepPlain sem sub f r)).iss = none := by
+  unfold stepPlain
+  split
+  · rw [(failHere_proj _ _).1, (failHere_proj _ _).2.2.1, failHere_gas]
+    intro _; exact ⟨Nat.le_refl _, hn⟩
+  · rename_i c0 _
+    simp only []
+    split
+    · rw [(failHere_proj _ _).1, (failHere_proj _ _).2.2.1, failHere_gas, (oogLedger_bound _ _ _ _).2.1]
+      intro _; exact ⟨Nat.le_refl _, hn⟩
+    · split
+      · simp only [stepIssued, stepWork, stepGas, stepGlob]
+        intro _; exact ⟨by omega, hn⟩
+      · simp only [stepIssued, stepWork, stepGas, stepGlob]
+        intro _; exact ⟨by omega, hn⟩
+      · rw [(finishStep_proj _ _ _ _ _ _ _ _ _).1, (finishStep_proj _ _ _ _ _ _ _ _ _).2.1,
+          (finishStep_proj _ _ _ _ _ _ _ _ _).2.2.1, finishStep_gas]
+        intro hI
+        have hi : isIssue r = false := by
+          cases h : isIssue r <;> simp_all
+        simp only [hi]
+        exact ⟨by omega, hn⟩
+      · split
+        · rw [(failHere_proj _ _).1, (failHere_proj _ _).2.2.1, failHere_gas]
+          intro _; exact ⟨Nat.le_refl _, hn⟩
+        · rw [(finishStep_proj _ _ _ _ _ _ _ _ _).1, (finishStep_proj _ _ _ _ _ _ _ _ _).2.1,
+            (finishStep_proj _ _ _ _ _ _ _ _ _).2.2.1, finishStep_gas]
+          intro hI
+          have hres : (sub { ‹CallReq W› with fwd := createTake r (f.gas - plainCost r c0 (plainFee sem f r)) } f.static
+              { f.glob with fees := f.glob.fees + plainFee sem f r }).issued = false := by
+            revert hI; cases f.issued <;> simp
+          have key := fun hg => hsub _ _ _ hg hres
+          obtain ⟨hw, hi⟩ := key hn
+          have := createTake_le r (f.gas - plainCost r c0 (plainFee sem f r))
+          simp only [] at hw
+          exact ⟨by omega, hi⟩
+
+theorem stepCall_work (sem : Sem W L) (sub : SubCall W) (hsub : SubWork sub) (f : Frame W L) (r : Row)
+    (hn : f.glob.iss = none) :
+    stepIssued (stepCall sem sub f r) = false →
+      stepWork (stepCall sem sub f r) + stepGas (stepCall sem sub f r) ≤ f.work + f.gas ∧
+      (stepGlob (stepCall sem sub f r)).iss = none := by
+  unfold stepCall
+  split
+  · rw [(failHere_proj _ _).1, (failHere_proj _ _).2.2.1, failHere_gas]
+    intro _; exact ⟨Nat.le_refl _, hn⟩
+  · rename_i a _
+    have hcov := callBase_covers (sem.callHasValue r f.l) (callFee r (sem.callHasValue r f.l) a) a.extra
+    simp only []
+    split
+    · rw [(failHere_proj _ _).1, (failHere_proj _ _).2.2.1, failHere_gas]
+      intro _; exact ⟨Nat.le_refl _, hn⟩
+    · split
+      · rw [(failHere_proj _ _).1, (failHere_proj _ _).2.2.1, failHere_gas, (oogLedger_bound _ _ _ _).2.1]
+        intro _; exact ⟨Nat.le_refl _, hn⟩
+      · split
+        · simp only [stepIssued, stepWork, stepGas, stepGlob]
+          intro _; exact ⟨by omega, hn⟩
+        · simp only [stepIssued, stepWork, stepGas, stepGlob]
+          intro _; exact ⟨by omega, hn⟩
+        · rw [(finishStep_proj _ _ _ _ _ _ _ _ _).1, (finishStep_proj _ _ _ _ _ _ _ _ _).2.1,
+            (finishStep_proj _ _ _ _ _ _ _ _ _).2.2.1, finishStep_gas]
+          intro _; exact ⟨by omega, hn⟩
+        · rw [(finishStep_proj _ _ _ _ _ _ _ _ _).1, (finishStep_proj _ _ _ _ _ _ _ _ _).2.1,
+            (finishStep_proj _ _ _ _ _ _ _ _ _).2.2.1, finishStep_gas, (moveToRefunds_ledger _ _ _ _).2]
+          intro hI
+          have hres : (sub { ‹CallReq W› with fwd := callGasU64 f.gas (callBase (sem.callHasValue r f.l) (callFee r (sem.callHasValue r f.l) a) a.extra) a.requested + stipendOf (sem.callHasValue r f.l) } f.static
+              { f.glob with fees := f.glob.fees + callFee r (sem.callHasValue r f.l) a }).issued = false := by
+            revert hI; cases f.issued <;> simp
+          have key := fun hg => hsub _ _ _ hg hres
+          obtain ⟨hw, hi⟩ := key hn
+          simp only [] at hw
+          exact ⟨by omega, hi⟩
+
+theorem step_work (sem : Sem W L) (sub : SubCall W) (hsub : SubWork sub) (f : Frame W L) (hn : f.glob.iss = none) :
+    stepIssued (step sem sub f) = false →
+      stepWork (step sem sub f) + stepGas (step sem sub f) ≤ f.work + f.gas ∧ (stepGlob (step sem sub f)).iss = none := by
+  unfold step
+  repeat' split
+  all_goals first
+    | exact stepCall_work sem sub hsub f _ hn
+    | exact stepPlain_work sem sub hsub f _ hn
+    | (rw [(failHere_proj _ _).1, (failHere_proj _ _).2.2.1, failHere_gas]; intro _; exact ⟨Nat.le_refl _, hn⟩)
+
+/-- the `issued` flag is sticky: once set it stays set (so a run that ends with it clear never had it set) -/
+theorem step_issued_mono (sem : Sem W L) (sub : SubCall W) (f : Frame W L) (h : f.issued = true) :
+    stepIssued (step sem sub f) = true := by
+  unfold step stepCall stepPlain
+  simp only []
+  repeat' split
+  all_goals first
+    | (rw [(failHere_proj _ _).2.1]; exact h)
+    | (rw [(finishStep_proj _ _ _ _ _ _ _ _ _).2.1]; simp [h])
+    | simp [stepIssued, h]
+
+theorem runFrame_issued_mono (sem : Sem W L) (sub : SubCall W) :
+    ∀ (n : Nat) (f : Frame W L), f.issued = true → (runFrame sem sub n f).issued = true := by
+  intro n
+  induction n with
+  | zero => intro f h; simpa [runFrame] using h
+  | succ n ih =>
+    intro f h
+    have hs := step_issued_mono sem sub f h
+    unfold runFrame
+    split
+    · rename_i r hr; simpa [hr, stepIssued] using hs
+    · rename_i f' hr
+      exact ih f' (by simpa [hr, stepIssued] using hs)
+
+theorem runFrame_work (sem : Sem W L) (sub : SubCall W) (hsub : SubWork sub) :
+    ∀ (n : Nat) (f : Frame W L), f.glob.iss = none → (runFrame sem sub n f).issued = false →
+      (runFrame sem sub n f).work + (runFrame sem sub n f).gas ≤ f.work + f.gas ∧ (runFrame sem sub n f).glob.iss = none := by
+  intro n
+  induction n with
+  | zero => intro f hn _; simp [runFrame, hn]
+  | succ n ih =>
+    intro f hn
+    have h := step_work sem sub hsub f hn
+    unfold runFrame
+    split
+    · rename_i r hr
+      intro hI
+      simpa [hr, stepIssued, stepWork, stepGas, stepGlob] using h (by simpa [hr, stepIssued] using hI)
+    · rename_i f' hr
+      intro hI
+      have hf' : f'.issued = false := by
+        cases hfi : f'.issued with
+        | false => rfl
+        | true => rw [runFrame_issued_mono sem sub n f' hfi] at hI; cases hI
+      have h1 := h (by simpa [hr, stepIssued] using hf')
+      simp only [hr, stepWork, stepGas, stepGlob] at h1
+      have h2 := ih f' h1.2 hI
+      exact ⟨by omega, h2.2⟩
+
+theorem afterSelect_of_empty (sem : Sem W L) (J : Journal W) (st : Bool) (sim : W → Glob → FrameRes W) (r : FrameRes W)
+    (h : r.glob.iss = none) : afterSelect sem J st sim r = r := by
+  cases r with
+  | mk s g w gl wk i =>
+    cases gl with
+    | mk t fe re =>
+      simp only [] at h
+      subst h
+      simp [afterSelect, triggersRate]
+
+theorem afterSelect_issued_imp (sem : Sem W L) (J : Journal W) (st : Bool) (sim : W → Glob → FrameRes W) (r : FrameRes W)
+    (h : (afterSelect sem J st sim r).issued = false) : r.issued = false := by
+  unfold afterSelect at h
+  simp only [] at h
+  repeat' split at h
+  all_goals simp_all
+
+theorem callBody_work (sem : Sem W L) (J : Journal W) (sg : Nat) (sub : SubCall W) (hsub : SubWork sub) :
+    SubWork (callBody sem J sg sub) := by
+  intro req ro g hn
+  have h0 := runFrame_work sem sub hsub (fuelFor req.code req.fwd)
+    { code := req.code, pc := 0, gas := req.fwd, l := sem.l0, w := req.enter req.world, static := (ro || req.static), glob := g, work := 0, issued := false } hn
+  unfold callBody
+  split
+  · intro _; simp only []; exact ⟨by split <;> omega, hn⟩
+  · intro hI
+    rw [(settle_keeps _ _ _).2.1] at hI
+    have hI1 := afterSelect_issued_imp _ _ _ _ _ hI
+    rw [(afterDeposit_keeps _ _).2.1] at hI1
+    have h1 := h0 hI1
+    simp only [Nat.zero_add] at h1
+    have hd := afterDeposit_keeps req (runFresh sem sub req.code req.fwd (req.enter req.world) (ro || req.static) g)
+    have hdg := afterDeposit_gas_le req (runFresh sem sub req.code req.fwd (req.enter req.world) (ro || req.static) g)
+    have hempty : (afterDeposit req (runFresh sem sub req.code req.fwd (req.enter req.world) (ro || req.static) g)).glob.iss = none := by
+      rw [hd.1]; exact h1.2
+    rw [afterSelect_of_empty _ _ _ _ _ hempty]
+    have hk := settle_keeps J (J.snap req.world) (afterDeposit req (runFresh sem sub req.code req.fwd (req.enter req.world) (ro || req.static) g))
+    have hsg := settle_gas_le J (J.snap req.world) (afterDeposit req (runFresh sem sub req.code req.fwd (req.enter req.world) (ro || req.static) g))
+    rw [hk.1, hk.2.2.1, hd.2.2.1]
+    refine ⟨?_, hempty⟩
+    have : (runFresh sem sub req.code req.fwd (req.enter req.world) (ro || req.static) g).work +
+        (runFresh sem sub req.code req.fwd (req.enter req.world) (ro || req.static) g).gas ≤ req.fwd := h1.1
+    omega
+
+theorem callAt_work (sem : Sem W L) (J : Journal W) : ∀ n, SubWork (callAt sem J n) := by
+  intro n
+  induction n with
+  | zero => intro req ro g hn _; exact ⟨by simp [callAt], hn⟩
+  | succ n ih => exact callBody_work sem J simulateGas _ ih
+
+/-- **metered without ISSUE** (the strengthened partial of `C20_metered_statement`): for `evm.Call/…/create` at any
+    depth, entered with an empty `Issued` channel, if no ISSUE step is executed anywhere in the call tree then the gas
+    of all steps the interpreter executed plus the gas handed back is at most the gas given (the un-metered decimals()
+    call is the ONLY leak), and the channel is still empty afterwards -/
+theorem metered_without_issue (sem : Sem W L) (J : Journal W) (n : Nat) (req : CallReq W) (ro : Bool) (g : Glob)
+    (hempty : g.iss = none) (hno : (callAt sem J n req ro g).issued = false) :
+    (callAt sem J n req ro g).work + (callAt sem J n req ro g).gas ≤ req.fwd ∧ (callAt sem J n req ro g).glob.iss = none :=
+  callAt_work sem J n req ro g hempty hno
+
 /-! ## the fee ledger's out-of-gas rule -/
 
 /-- when a fee-carrying step cannot be paid, the ledger entry is replaced by at most the gas the frame still has
@@ -885,5 +1278,19 @@ example : SubStatic (fun (req : CallReq Nat) _ g => ({ status := .failed, gas :=
   intro req g; simp
 
 example : callGasU64 6400 0 (2 ^ 200) = 6300 := by decide
+
+/-! ## non-vacuity of the round-2 theorems -/
+
+/-- `PUSH1 1; POP; STOP` executes no ISSUE: the hypothesis of `metered_without_issue` is satisfiable, and its conclusion
+    is the concrete bound 5 + 95 ≤ 100 -/
+example : (callAt workSem workJ 1 (plainReq [0x60, 1, 0x50, 0x00] 100) false {}).issued = false := by decide
+example : (callAt workSem workJ 1 (plainReq [0x60, 1, 0x50, 0x00] 100) false {}).work +
+    (callAt workSem workJ 1 (plainReq [0x60, 1, 0x50, 0x00] 100) false {}).gas ≤ 100 :=
+  (metered_without_issue workSem workJ 1 _ false {} rfl (by decide)).1
+/-- with ISSUE the flag is set, so `metered_without_issue` does not apply to the counterexample program -/
+example : (callAt workSem workJ 1 (plainReq [0x60, 1, 0xe0, 0x00] 25003) false {}).issued = true := by decide
+example : (callAt workSem workJ 2 issueReq true {}).issued = false := readonly_tree_never_issues _ _ _ _ _
+example : (callAt workSem workJ 2 issueReq false {}).gas + (callAt workSem workJ 2 issueReq false {}).glob.refunds +
+    (callAt workSem workJ 2 issueReq false {}).glob.fees ≤ issueReq.fwd := fees_le_consumed _ _ _ _ _ none
 
 end Props.C20
